@@ -42,3 +42,8 @@ pub assume_specification[ <Ordering as PartialEq>::eq ](a: &Ordering, b: &Orderi
 // when Identifier's ordering is written by hand instead of derived
 pub assume_specification[ <String as Ord>::cmp ](a: &String, b: &String) -> (r: Ordering)
     ensures r == str_cmp(a@, b@);
+// small pure std functions a refactor is likely to use (documented std behaviour)
+pub assume_specification<T, U>[ Option::<T>::and::<U> ](a: Option<T>, b: Option<U>) -> (r: Option<U>)
+    ensures r == (if a is Some { b } else { None::<U> });
+pub assume_specification[ Ordering::then ](a: Ordering, b: Ordering) -> (r: Ordering)
+    ensures r == (if a == Ordering::Equal { b } else { a });
